@@ -2,11 +2,11 @@ INIT GInit
 NEXT GNext
 CHECK_DEADLOCK FALSE
 CONSTANTS
- Confs <- GenSizeConfs
- MaxPartial = 0
- MaxFaults = 0
+ Confs <- GenConfs
+ MaxPartial = 2
+ MaxFaults = 2
  DefChunk = 2
  ChunkLimit = 6
  RetryLimit = 10
- HttpRetries = 5
+ HttpRetries = 3
 INVARIANTS Emit
